@@ -389,6 +389,16 @@ Definition h_dvbuild (args : list sx) : sx :=
   | _ => sxerr 22
   end.
 
+(* ---- C02: (23 batch) -> the stored values per document as the builder's bucket pass produces them ---- *)
+Definition h_storedbuild (args : list sx) : sx :=
+  match args with
+  | [b] => match batch_of_sx b with
+           | Some bt => L (map (fun d => L (map sx_of_sval d)) (stored_run bt))
+           | None => sxerr 23
+           end
+  | _ => sxerr 23
+  end.
+
 Definition handle (orc : sx -> sx) (req : sx) : sx :=
   match req with
   | L (A k :: args) =>
@@ -411,6 +421,7 @@ Definition handle (orc : sx -> sx) (req : sx) : sx :=
       else if k =? 20 then h_enum args
       else if k =? 21 then h_builder args
       else if k =? 22 then h_dvbuild args
+      else if k =? 23 then h_storedbuild args
       else sxerr 0
   | _ => sxerr 0
   end.
